@@ -320,11 +320,11 @@ func norm(s string) string {
 }
 
 type constLine struct {
-	Ev    string `json:"ev"`
-	ID    int    `json:"id"`
-	Kind  string `json:"kind"`
-	Name  string `json:"name"`
-	Value int64  `json:"value"`
+	Ev    string  `json:"ev"`
+	ID    int     `json:"id"`
+	Kind  string  `json:"kind"`
+	Name  string  `json:"name"`
+	Value int64   `json:"value"`
 	Dict  []int64 `json:"dict"`
 }
 
